@@ -72,8 +72,14 @@ pub fn generate(seed: u64) -> Scenario {
     let ncache = 2 + rng.usize(2);
     let nplain = 1 + rng.usize(2);
     let mut names: Vec<String> = vec![];
+    // now and then the registered names are confusable: they differ only in case or by an underscore
+    let confusable = rng.chance(1, 4);
+    let cnames: Vec<&str> = if confusable { vec!["c1", "C1", "c1_", "c_1"] } else { vec!["c1", "c2", "c3", "c4"] };
+    let nnames: Vec<&str> = if confusable { vec!["n1", "N1"] } else { vec!["n1", "n2"] };
+    let fail_style = *rng.pick(&[0u8, 0, 0, 1, 2]);
     for i in 0..ncache {
-        let mut f = FnSpec::new(&format!("c{}", i + 1), true, ScriptOut::Unique);
+        let mut f = FnSpec::new(cnames[i], true, ScriptOut::Unique);
+        f.fail_style = fail_style;
         f.mix_tag = true;
         f.mix_ordinal = true;
         f.salt = seed;
@@ -81,7 +87,8 @@ pub fn generate(seed: u64) -> Scenario {
         scn.functions.push(f);
     }
     for i in 0..nplain {
-        let mut f = FnSpec::new(&format!("n{}", i + 1), false, ScriptOut::Unique);
+        let mut f = FnSpec::new(nnames[i], false, ScriptOut::Unique);
+        f.fail_style = fail_style;
         f.mix_tag = true;
         f.mix_ordinal = true;
         f.salt = seed;
